@@ -274,6 +274,30 @@ def main():
             broken.append(("proof", "Print Assumptions missing for", ",".join(missing)))
         for name, stmt in P.get("pinned", {}).items():
             pass
+    # ---- 2b. translated kernels: regenerate Gen/Code<G>.v from the source and re-prove Gen/Tie<G>.v
+    tie_info = {}
+    groups = P.get("tie_groups", [])
+    if groups:
+        import re
+        gc = vlib.gen_code(groups)
+        okg = [g for g in groups if gc[g][0]]
+        for g in groups:
+            if not gc[g][0]:
+                broken.append(("translator", f"tools/rs2coq.py group {g}: the source left the translated subset", gc[g][1]))
+        tb = vlib.coq_build(["-k"] + [f"Gen/Tie{g}.vo" for g in okg]) if okg else dict(ok=True, output="", wall=0)
+        bad = [g for g in okg if not vo_fresh(f"Gen/Tie{g}.v")]
+        for g in bad:
+            m = re.search(r'File "\./Gen/(?:Tie|Code)%s\.v", line (\d+).*?\n(Error:.*?)(?:\n\n|\nmake)' % g, tb["output"], flags=re.S)
+            detail = (f"line {m.group(1)} {m.group(2)[:500]}" if m else tb["output"][-600:])
+            broken.append(("proof", f"Gen/Tie{g}.v (translated source of the {g} kernels = model) no longer checks", detail))
+        tnames, tprints, nfun = vlib.tie_theorems([g for g in okg if g not in bad])
+        tclosed, taxioms = vlib.parse_assumptions(tb["output"])
+        if taxioms or tclosed < len(tprints):
+            broken.append(("proof", "Print Assumptions (Gen/Tie*.v)", f"closed={tclosed} of {len(tprints)}; axioms={taxioms}"))
+        tie_info = dict(tie_groups=groups, tie_groups_translated=okg, tie_functions_translated=nfun,
+                        tie_theorems=tnames, tie_print_assumptions_closed=tclosed, tie_wall_s=round(tb["wall"], 1))
+        log(f"tie: groups={groups} translated={len(okg)} theorems={len(tnames)} closed={tclosed} wall={tb['wall']:.1f}s")
+
     chk = None
     if tier == "thorough" and props_vo_ok and not os.environ.get("VERIF_NO_COQCHK"):
         chk = vlib.coqchk(pid)
@@ -548,6 +572,7 @@ def main():
         coverage.update(coqchk_ok=chk["ok"], coqchk_axioms=chk["axioms"], coqchk_wall_s=round(chk["wall"]))
     coverage.update(emu_info)
     coverage.update(vm_info)
+    coverage.update(tie_info)
     if conc_info:
         coverage.update(conc_info)
     coverage.update(P.get("extra_coverage", lambda: {})())
